@@ -36,11 +36,12 @@ STR_FORMS = ['STRING', 'STRING[10]', 'WSTRING', 'WSTRING[5]', 'STRING[1]']
 
 def ty_st(t, key=0):
     if t == 's': return STR_FORMS[key % len(STR_FORMS)]
+    if isinstance(t, str) and t.startswith('f:'): return f'ARRAY[1..2] OF {nm(int(t[2:]))}'   # an array of function block instances
     return {'b': 'BOOL', 'i': 'INT', 'a': 'ARRAY[0..3] OF INT'}.get(t) if isinstance(t, str) else nm(t[1])
 
 
 def ty_enc(t):
-    if t == 'a': return 'i'
+    if t == 'a' or (isinstance(t, str) and t.startswith('f:')): return 'i'   # (the analyzer follows no reference through an array)
     return t if isinstance(t, str) else f'n{t[1]}'
 
 
@@ -339,6 +340,9 @@ def gen_valid(rng, size=None):
             for _ in range(rng.randint(0, 2)):
                 callee = rng.choice(fbs)
                 iv = var(ns.new(), 'v', ('n', callee[0])); vs.append(iv); insts.append((iv['name'], callee[1]))
+            # an array of instances of a function block (never called, never assigned)
+            if rng.random() < 0.3:
+                vs.append(var(ns.new(), 'v', f'f:{rng.choice(fbs)[0]}'))
         # (assignment to a VAR_IN_OUT target is P9999 in the analyzer: not generated)
         writable = [v['name'] for v in vs if v['ty'] == 'i' and v['cls'] in 'vo' and not v['const']]
         if not writable:
